@@ -192,8 +192,8 @@ func runProgram(stack, dir string, prog int, calls []pdrv.Call, cases []corrCase
 	b, err := stacks.Open(stack, dir) // storage/config JSON -> storage + DbContainer, started (as cmd/pithos.go)
 	must(err)
 	it := &pdrv.Interp{St: b.Storage, W: w, Buckets: []string{"b1", "b2"}, Keys: []string{"k1", "k2"}}
-	// fields PithosTrace.tla expects on every call event (no placement observation here)
-	it.Hook = func(ev map[string]any) { ev["placement"] = []any{}; ev["placed"] = false }
+	// fields PithosTrace.tla expects on every call event (no placement / reference-count observation here)
+	it.Hook = func(ev map[string]any) { ev["placement"] = []any{}; ev["placed"] = false; ev["refs_ok"] = true }
 	it.Run(pdrv.Program{ID: prog, Calls: calls})
 	ids := it.SaveIDs()
 	b.Close()
